@@ -287,7 +287,41 @@ def array_assign(B):
     B.obs.append(('dump', B.dump('a')))
 
 
-SCENARIOS = {f.__name__: f for f in [array_basic, array_append, array_truncate, array_assign]}
+def array_failappend(B):
+    d = B.darr
+
+    class Boom(Exception):
+        pass
+    for tag, n in (('ne', 3), ('e', 0)):
+        if n:
+            a = d.asarray(B.path(tag), B.arr('x' + tag, n, (2,), 'int32', 'little'), accessmode='r+')
+        else:
+            a = d.create_array(B.path(tag), shape=(0, 2), dtype='int32')
+
+        def g1():
+            yield B.arr('c1' + tag, 2, (2,), 'int32', 'little', 40)
+            raise Boom()
+        attempt(B, 'boom' + tag, lambda: a.iterappend(g1()))
+        handle(B, 'h1' + tag, a)
+
+        def g2():
+            yield B.arr('c2' + tag, 1, (2,), 'float64', 'little', 60)
+            yield B.arr('c3' + tag, 2, (3,), 'int32', 'little', 70)
+        attempt(B, 'shape' + tag, lambda: a.iterappend(g2()))
+        handle(B, 'h2' + tag, a)
+
+        def g3():
+            yield B.arr('c4' + tag, 1, (2, 2), 'int32', 'little', 80)
+        attempt(B, 'rank' + tag, lambda: a.iterappend(g3()))
+        handle(B, 'h3' + tag, a)
+        handle(B, 'fresh' + tag, d.Array(B.path(tag)))
+        dd = B.dump(tag)
+        B.obs.append(('dump' + tag, {k: v for k, v in dd.items() if not k.endswith('.json')},
+                      dd['arraydescription.json'][1]['shape']))
+
+
+SCENARIOS = {f.__name__: f for f in [array_basic, array_append, array_truncate, array_assign,
+                                        array_failappend]}
 
 
 def run(names, stub_readme=True):
